@@ -1188,6 +1188,10 @@ func (fc *funcContext) translateConversion(expr ast.Expr, desiredType types.Type
 			}
 		case isFloat(t):
 			if t.Kind() == types.Float32 && exprType.Underlying().(*types.Basic).Kind() != types.Float32 {
+				if is64Bit(exprType.Underlying().(*types.Basic)) {
+					// Rounded once, not to double precision first.
+					return fc.formatExpr("$flatten64ToFloat32(%e)", expr)
+				}
 				// Integers and float64 values are rounded to single precision.
 				return fc.formatExpr("$fround(%f)", expr)
 			}
